@@ -26,7 +26,8 @@ META = dict(
                'real samplers (exhaustive on tiny supercells, long random histories on larger ones).',
     level_note='Trusted: Lean kernel + standard axioms; table export and text protocol of the harness. Modelled not '
                'verified: numpy indexing/int64 arithmetic, Python set/dict semantics (sets as bit-vectors, the trial '
-               'dict as a dense vector; float sums are exact because the harness uses integer interaction values). '
+               'dict as a dense vector; float sums are exact for the small-integer tables, for the wide-magnitude tables the '
+               'model (exact integers) and the implementation agree within 1e-9*sum|values involved|). '
                'The construction of the tables (clusterevaluator, jumpnetworkevaluator*) belongs to C32/C34.',
     technique='Lean 4 invariant proof (induction over histories, pointwise counting) + differential histories on exported tables + direct oracles',
     lean_modules=['OnsagerModel.C33', 'OnsagerProofs.C33'],
@@ -36,7 +37,9 @@ META = dict(
               'Onsager.C33.deltaE_overlap_counterexample'],
     tie_theorems=[],
     rule='a case = one history on one real sampler (crystal x supercell x {plain, jump network, vacancy, vacancy+jumps, '
-         'spectator sublattice}, random even-integer cluster values): exhaustive cases are (occupation, update) pairs '
+         'spectator sublattice}; cluster values either small even integers (all float sums exact) or, for every second / '
+         'third sampler, even integers x 2^-q of widely separated magnitude (|v| <= 12 next to odd*2^34..2^62, ratios 1e8..1e18: '
+         'float sums round, energies are compared with tol_lin = 1e-9*sum|active values|)): exhaustive cases are (occupation, update) pairs '
          'with the update ranging over all single and double site arguments; random cases are histories of '
          'start/update/trial/E/transitions ops with 0-4 sites per argument, 20% malformed; non-trivial = the history '
          'changes the occupation at least once; distinct by (sampler, op text)',
@@ -72,15 +75,33 @@ class Impl:
         except Exception as e:
             return 'err:' + mc.err_name(e)
 
+    # Energies are reported as exact integers in units of 2^-q (q = 0 for the small-integer tables).  For the
+    # wide-magnitude tables float sums round: `*_scale` is the sum of |values| entering a quantity, the roundoff
+    # tolerance against exact arithmetic is tol_lin = 1e-9 * scale (0 when every partial sum is exact).
+    def to_int(self, x):
+        return mc.as_scaled_int(x, self.b.q)
+
+    def active_scale(self):
+        cc = np.asarray(self.MC.clustercount)[:self.b.nenergy]
+        return float(self.b.absvalues[:self.b.nenergy][cc == 0].sum())
+
+    def touched_scale(self, a, b):
+        ne = self.b.nenergy
+        return float(sum(self.b.absvalues[m] for i in set(list(a) + list(b)) if 0 <= i < self.b.nsites
+                         for m in self.b.rows[i] if m < ne))
+
+    def tol(self, scale):
+        return 0 if self.b.regime == 'small' else 1e-9 * scale
+
     def de(self, a, b):
         try:
-            v = mc.as_int(self.MC.deltaE_trial(list(a), list(b)))
+            v = self.to_int(self.MC.deltaE_trial(list(a), list(b)))
             return 'ok %s' % ('non-integer' if v is None else v), v
         except Exception as e:
             return 'err:' + mc.err_name(e), None
 
     def E(self):
-        return mc.as_int(self.MC.E())
+        return self.to_int(self.MC.E())
 
     def obs(self):
         s, w = mc.checksum(self.MC.clustercount)
@@ -91,7 +112,7 @@ class Impl:
         """returns (text without jump numbers, dx list) or error text"""
         try:
             ij, Q, dx = self.MC.transitions()
-            qs = [mc.as_int(q) for q in Q]
+            qs = [self.to_int(q) for q in Q]
             return 'ok ' + ('-' if not ij else ';'.join('%d:%d:%s' % (int(i), int(j), q) for (i, j), q in zip(ij, qs))), dx
         except Exception as e:
             return 'err:' + mc.err_name(e), None
@@ -131,8 +152,14 @@ def oracle_fresh(ctx, im, hist, rng, ntrials=3):
              dict(occupied=sorted(map(int, MC.occupied_set)), fresh_occupied=sorted(map(int, F.occupied_set)),
                   unoccupied=sorted(map(int, MC.unoccupied_set)), fresh_unoccupied=sorted(map(int, F.unoccupied_set))))
         return False
-    if MC.E() != F.E():
-        viol('E', 'E() differs from a fresh start', dict(E=float(MC.E()), fresh_E=float(F.E())))
+    # energy: the clean code recomputes E from the counts, so it is history independent; the comparison allows
+    # tol_lin = 1e-9 * (sum of |values| of the interactions that are on) and is exact for the small-integer tables
+    Eh, Ef = float(MC.E()), float(F.E())
+    cc = np.asarray(F.clustercount)[:b.nenergy]
+    scale = float(b.absvalues[:b.nenergy][cc == 0].sum()) * 2.0 ** (-b.q)
+    if not (abs(Eh - Ef) <= (0.0 if b.regime == 'small' else 1e-9 * scale)):
+        viol('E', 'E() after the history differs from E() of a fresh sampler on the same occupation',
+             dict(E=Eh, fresh_E=Ef, difference=Eh - Ef, tolerance=1e-9 * scale, sum_abs_active_values=scale))
         return False
     for _ in range(ntrials):
         a, u = _rand_args(rng, b, im, valid=True)
@@ -183,6 +210,34 @@ def _rand_occ(rng, b, p=None):
     return occ
 
 
+def tol_of(extra, kind):
+    if extra is None: return 0
+    return extra[1] if kind == 'trans' else extra
+
+
+def _close(g, e, kind, tol):
+    """model answer g (exact arithmetic) vs implementation answer e (float sums, exact integer text): identical
+    except that the energy fields may differ by at most tol"""
+    try:
+        if kind == 'obs':
+            gt, et = g.split(' '), e.split(' ')
+            return gt[1:] == et[1:] and abs(int(gt[0]) - int(et[0])) <= tol
+        if kind == 'de':
+            gt, et = g.split(' '), e.split(' ')
+            return len(gt) == 2 and len(et) == 2 and gt[0] == et[0] == 'ok' and abs(int(gt[1]) - int(et[1])) <= tol
+        if kind == 'trans':
+            if not (g.startswith('ok ') and e.startswith('ok ')): return False
+            gp, ep = g[3:].split(';'), e[3:].split(';')
+            if len(gp) != len(ep): return False
+            for x, y in zip(gp, ep):
+                x, y = x.split(':'), y.split(':')
+                if x[:-1] != y[:-1] or abs(int(x[-1]) - int(y[-1])) > tol: return False
+            return True
+    except (ValueError, IndexError):
+        return False
+    return False
+
+
 # ------------------------------------------------------------------ session runner
 class Recorder:
     """collects model request lines with the implementation's answers"""
@@ -203,10 +258,12 @@ class Recorder:
             g0 = g
             if kind == 'trans':
                 g, ns = _strip_n(g)
-                if g == e and extra is not None:
-                    dx = extra
+                if extra is not None and (g == e or (extra[1] > 0 and _close(g, e, kind, extra[1]))) and extra[0] is not None:
+                    dx = extra[0]
                     if len(dx) != len(ns) or any(not np.array_equal(np.asarray(dx[k], dtype=float), b.dx[n]) for k, n in enumerate(ns)):
                         e = e + ' [dx of the listed jumps differ from the jump table]'
+            if g != e and kind in ('obs', 'de', 'trans') and tol_of(extra, kind) > 0 and _close(g, e, kind, tol_of(extra, kind)):
+                continue
             if g != e:
                 nd += 1
                 if nd <= 10:
@@ -240,8 +297,9 @@ def _apply(ctx, rec, im, op, hist, rng, oracle=True):
         E0 = dE = None
         if oracle and im.domain and valid:
             dtxt, dE = im.de(a, u)
-            E0 = im.E()
-            rec.add('de %s %s' % (mc.show_l(a), mc.show_l(u)), dtxt, b, hist, tail=['de', a, u])
+            E0, S0 = im.E(), im.active_scale()
+            rec.add('de %s %s' % (mc.show_l(a), mc.show_l(u)), dtxt, b, hist, tail=['de', a, u], kind='de',
+                    extra=im.tol(im.touched_scale(a, u)))
         before = None if not (oracle and im.domain) else [int(x) for x in im.MC.occ]
         st = im.upd(a, u)
         hist.append(['upd', a, u])
@@ -252,24 +310,26 @@ def _apply(ctx, rec, im, op, hist, rng, oracle=True):
                 ctx.violation('raises:update:' + st, 'update() raises on duplicate-free in-range arguments',
                               dict(sampler=b.name, build=b.build, history=list(hist)))
             if valid and st == 'ok':
-                E1 = im.E()
-                if dE is None or E0 is None or E1 is None or dE != E1 - E0:
+                E1, S1 = im.E(), im.active_scale()
+                if dE is None or E0 is None or E1 is None or not (abs(dE - (E1 - E0)) <= im.tol(S0 + S1)):
                     ctx.violation('deltaE-inexact', 'deltaE_trial != E(after update) - E(before)',
                                   dict(sampler=b.name, build=b.build, history=hist[:-1], occ_before=before,
-                                       occsites=a, unoccsites=u, deltaE_trial=dE, E_before=E0, E_after=E1))
+                                       occsites=a, unoccsites=u, deltaE_trial=dE, E_before=E0, E_after=E1,
+                                       unit='2^-%d' % b.q, tolerance=im.tol(S0 + S1)))
             im.changed |= (before != [int(x) for x in im.MC.occ])
         return st
     if k == 'de':
         a, u = op[1], op[2]
         dtxt, _ = im.de(a, u)
-        rec.add('de %s %s' % (mc.show_l(a), mc.show_l(u)), dtxt, b, hist, tail=['de', a, u])
+        rec.add('de %s %s' % (mc.show_l(a), mc.show_l(u)), dtxt, b, hist, tail=['de', a, u], kind='de',
+                extra=im.tol(im.touched_scale(a, u)))
         ctx.count('op:de')
         if oracle and im.domain and _valid_args(b, a, u) and not dtxt.startswith('ok'):
             ctx.violation('raises:deltaE_trial:' + dtxt, 'deltaE_trial() raises on valid arguments',
                           dict(sampler=b.name, build=b.build, history=list(hist), occsites=a, unoccsites=u))
         return dtxt
     if k == 'obs':
-        rec.add('obs', im.obs(), b, hist, tail=['obs'])
+        rec.add('obs', im.obs(), b, hist, tail=['obs'], kind='obs', extra=im.tol(im.active_scale()))
         ctx.count('op:obs')
         return 'ok'
     if k == 'cc':
@@ -277,7 +337,7 @@ def _apply(ctx, rec, im, op, hist, rng, oracle=True):
         return 'ok'
     if k == 'trans':
         t, dx = im.trans()
-        rec.add('trans', t, b, hist, tail=['trans'], kind='trans', extra=dx)
+        rec.add('trans', t, b, hist, tail=['trans'], kind='trans', extra=(dx, im.tol(float(b.absvalues.sum()))))
         ctx.count('op:trans')
         return t
     if k == 'fresh':
@@ -413,9 +473,9 @@ LARGE = [('fcc', 'd222', 'jumps'), ('sc', 'd333', 'plain'), ('bcc', 'd322', 'vac
          ('sc', 'sk4', 'jumps'), ('hcp', 'd222', 'plain'), ('bcc', 'd333', 'plain'), ('fcc', 'd333', 'vacplain')]
 
 
-def _build(ctx, spec, rng):
+def _build(ctx, spec, rng, regime='small'):
     try:
-        return mc.build(spec[0], spec[1], spec[2], rng, order=spec[3] if len(spec) > 3 else 3)
+        return mc.build(spec[0], spec[1], spec[2], rng, order=spec[3] if len(spec) > 3 else 3, regime=regime)
     except Exception as e:   # a combination the library cannot construct is not a property failure
         ctx.note('sampler %s not constructible: %r' % ('/'.join(map(str, spec)), e))
         ctx.count('skipped:build')
@@ -435,8 +495,10 @@ def run(ctx):
         # ~6000 evaluated cases, at most 12 samplers
         if ctx.quick and done >= 12: break
         if done >= nexh and (not ctx.quick or ctx.evaluations >= 6000): break
-        b = _build(ctx, spec, rng)
+        # every second tiny sampler has interaction values of widely separated magnitude (ratios 1e8 .. 1e18)
+        b = _build(ctx, spec, rng, regime=('wide' if done % 2 == 1 else 'small'))
         if b is None or b.nsites > 8: continue
+        ctx.count('values:' + b.regime)
         nfree = b.nsites - (1 if b.vacancy >= 0 else 0)
         cost = (2 ** nfree) * (2 * b.nsites + 3 * b.nsites ** 2)
         lim = 3000 if ctx.quick else 60000
@@ -450,14 +512,19 @@ def run(ctx):
     nhist = 14 if ctx.quick else 80
     for t in range(nhist):
         spec = large[t % len(large)]
-        b = _build(ctx, spec, rng)
+        # every third history runs on a table with a hard-core scale next to ordinary terms; there the fresh-sampler
+        # comparison is made every few ops, so that configurations visited after leaving a high-energy one are seen
+        wide = (t % 3 == 1)
+        b = _build(ctx, spec, rng, regime=('wide' if wide else 'small'))
         if b is None: continue
+        ctx.count('values:' + b.regime)
         nint = len(b.values)
         if ctx.quick: length = 250 if nint > 3000 else 600
         else: length = 2500 if nint > 3000 else 10000
         if t >= 4 and ctx.budget_left() < (40 if ctx.quick else 300):
             ctx.count('skipped:budget'); break
-        random_history(ctx, rec, b, rng, length, malformed=(t % 5 == 4))
+        random_history(ctx, rec, b, rng, length, malformed=(t % 5 == 4),
+                       fresh_every=((4 if nint <= 3000 else 12) if wide else 25))
     rec.compare()
 
 
@@ -492,9 +559,9 @@ def search(ctx, reasons):
     class Null:
         def add(self, *a, **k): pass
     rec = Null()
-    for spec in TINY + LARGE:
+    for k, spec in enumerate(TINY + LARGE):
         if ctx.violations or ctx.budget_left() < 10: break
-        b = _build(ctx, spec, rng)
+        b = _build(ctx, spec, rng, regime=('wide' if k % 2 else 'small'))
         if b is None: continue
         im = Impl(b); im.domain, im.changed = False, False
         hist = []
